@@ -384,8 +384,6 @@ def run(ctx):
         if r['status'] in ('unsupported', 'inconclusive'):
             inconclusive.append('%s: %s %s %s' % (r['status'], r.get('detail'), r.get('where', ''), r.get('notes')))
     inconclusive = sorted(set(inconclusive))[:20]
-    if summ.get('truncated'):
-        inconclusive.append('exploration truncated')
     covers = set()
     for r in recs:
         covers.update(r.get('covers', []))
